@@ -52,6 +52,11 @@ func oneEditCases() []gen.Str {
 		for _, s := range gen.PoolSubstitutions(r.Ver, r.S) {
 			oneEditMemo = append(oneEditMemo, gen.Str{S: gen.BStr(s), Source: "one-edit"})
 		}
+		if r.Layout == "base" || r.Layout == "spec-order" || r.Layout == "base+temporal+env" {
+			for _, s := range gen.Repeats(r.Ver, r.S) {
+				oneEditMemo = append(oneEditMemo, gen.Str{S: gen.BStr(s), Source: "subsequence"})
+			}
+		}
 	}
 	// every order-preserving subsequence of the v2 metric list; every subset of the base metrics of v3/v4
 	for _, s := range gen.Subsequences() {
@@ -224,6 +229,21 @@ func checkVectorOwner(c VecOut) error {
 	o, err := p.Build(c.A)
 	if err != nil {
 		return err
+	}
+	// the string just produced, under every other version's header, offered to the producing package straight
+	// away (a shortcut that recognises "what Vector() has just written" must still look at the header)
+	for _, q := range adapt.Pkgs {
+		if q.ID == p.ID {
+			continue
+		}
+		body := o.Vector()[len(p.V.Header):]
+		foreign := q.V.Header + body
+		if spec.Member(p.V, foreign) {
+			continue
+		}
+		if obj, err, pan := p.SafeParse(foreign); pan != nil || err == nil || obj != nil {
+			return fmt.Errorf("v%s ParseVector accepts %q (its own Vector() output under the v%s header) when offered right after that Vector() call: err=%v panic=%v", p.V.Name, foreign, q.V.Name, err, pan)
+		}
 	}
 	s := o.Vector()
 	acc, err := acceptors(s)
